@@ -568,6 +568,10 @@ def run_khatri_rao(case, rn):
     desc = lambda: (f"khatri_rao([{'; '.join(brief(x) for x in ms)}], weights={None if weights is None else weights.tolist()}, "
             f"skip_matrix={skip}, mask={None if mask is None else brief(mask)})")
     rn.both("khatri_rao", lambda f: f(list(ms), weights=weights, skip_matrix=skip, mask=mask), [ref], klass, desc)
+    if skip is not None and not m and not cplx:
+        # the same request with the index as a NumPy integer (what np.argmax / np.arange / an index array hands over)
+        rn.both("khatri_rao", lambda f: f(list(ms), weights=weights, skip_matrix=np.int64(skip), mask=mask), [ref], klass + ",numpy-int-index",
+                lambda: desc() + " [skip_matrix as np.int64]")
     return sum(x.size for x in rem) > len(rem) or w or m
 
 
@@ -693,6 +697,9 @@ def run_mttkrp(case, rn):
     desc = lambda: (f"unfolding_dot_khatri_rao(T{brief(t)}, (weights={None if weights is None else weights.tolist()}, "
             f"[{'; '.join(brief(f) for f in facs)}]), mode={mode})")
     out = rn.both("unfolding_dot_khatri_rao", lambda f: f(t, (weights, list(facs)), mode), [ref], klass, desc)
+    if not cplx:
+        rn.both("unfolding_dot_khatri_rao", lambda f: f(t, (weights, list(facs)), np.int64(mode)), [ref], klass + ",numpy-int-index",
+                lambda: desc() + " [mode as np.int64]")
     from tensorly.tenalg.core_tenalg.mttkrp import unfolding_dot_khatri_rao_memory as mem
 
     rn.call("unfolding_dot_khatri_rao_memory", "memory", lambda _: mem(t, (weights, list(facs)), mode), [ref], klass,
@@ -711,6 +718,27 @@ def run_sample_kr(case, rn):
     full = ref_np(R.khatri_rao([rt(m) for m in rem]))  # reference full product (first matrix slowest)
     site = "decomposition.sample_khatri_rao"
     klass = ("single-matrix" if len(rem) == 1 else "multi") + (",skip" if skip is not None else "")
+    # ---- drawn indices (no indices_list): whatever is drawn, the returned rows are the rows of the full product at the returned
+    #      indices, every index is in range, and a valid request (one-row matrices included) does not raise
+    for rs in (0, 1, 2):
+        for nsamp in sorted({ns, 5}):
+            for skp in (skip, None if skip is None else np.int64(skip)):
+                rn.calls += 1
+                ctx.count("calls")
+                ctx.count("calls:sample_khatri_rao:drawn")
+                d2 = lambda: f"sample_khatri_rao(matrices with rows {rows}, rank {rank}, n_samples={nsamp}, skip_matrix={skp!r}, random_state={rs}, return_sampled_rows=True)"
+                try:
+                    skr, idxs, rws = sample_khatri_rao(list(ms), nsamp, skip_matrix=skp, random_state=rs, return_sampled_rows=True)
+                except Exception as e:
+                    viol(ctx, f"{site}/raises-{type(e).__name__}/drawn-indices,{klass}", lambda: f"{d2()}: {type(e).__name__}: {e}")
+                    continue
+                idxs = [np.asarray(i) for i in idxs]
+                if len(idxs) != len(rem) or any(i.shape != (nsamp,) or (i.size and (i.min() < 0 or i.max() >= r)) for i, r in zip(idxs, rem_rows)):
+                    viol(ctx, f"{site}/drawn-indices-out-of-range-or-malformed/{klass}", lambda: f"{d2()}: indices {[i.tolist() for i in idxs]}")
+                    continue
+                exp_rows = [R2.kr_row(rem_rows, [int(i[s_]) for i in idxs]) for s_ in range(nsamp)]
+                if np.asarray(rws).tolist() != exp_rows or not np.array_equal(np.asarray(skr), full[exp_rows, :] if nsamp else full[:0]):
+                    viol(ctx, f"{site}/value/drawn-indices,{klass}", lambda: f"{d2()}: rows {np.asarray(rws).tolist()} (expected {exp_rows}) / values differ from the full product")
     row_tuples = list(itertools.product(*[range(r) for r in rem_rows]))
     for sample in itertools.product(row_tuples, repeat=ns):  # every explicit indices_list
         idx_list = [np.array([sample[s][k] for s in range(ns)], dtype=int) for k in range(len(rem))]
